@@ -91,6 +91,72 @@ pub fn run_chaos(s: &Streams) -> CaseOut {
         built.analysis = analyse(&built.prog);
         planted = Some(kind);
     }
+    // One case in six is a deliberate misfit between program and signal list (a C entry moved
+    // into an expected-only column, a C column turned into an output, or other edits of the
+    // list): binding must refuse it (C11). If it is accepted all the same, it is an accepted
+    // test like any other and must run without panicking.
+    let mut misfit: Vec<String> = vec![];
+    if dch.chance(1, 6) {
+        use crate::model::*;
+        match dch.weighted(&[3, 3, 2]) {
+            0 => {
+                // put a C into an expected-only column of some row
+                let cols = built.cols.clone();
+                let mut sites: Vec<(usize, usize)> = vec![];
+                let mut ri_ = 0usize;
+                built.prog.visit_stmts(&mut |st, _| {
+                    if let Stmt::Row(_, es) | Stmt::Repeat(_, _, es) = st {
+                        let mut col = 0;
+                        for (k, e) in es.iter().enumerate() {
+                            if e.width() == 1 && cols.get(col).map(|c| c.role == ColRole::ExpectedOnly).unwrap_or(false) {
+                                sites.push((ri_, k));
+                            }
+                            col += e.width();
+                        }
+                        ri_ += 1;
+                    }
+                });
+                if !sites.is_empty() {
+                    let (r, k) = sites[dch.upto(sites.len())];
+                    let mut ri2 = 0usize;
+                    fn go(bl: &mut [Stmt], ri2: &mut usize, r: usize, k: usize) {
+                        for st in bl {
+                            match st {
+                                Stmt::Row(_, es) | Stmt::Repeat(_, _, es) => {
+                                    if *ri2 == r {
+                                        es[k] = Entry::C(true);
+                                    }
+                                    *ri2 += 1;
+                                }
+                                Stmt::Loop(_, _, inner) | Stmt::While(_, inner) => go(inner, ri2, r, k),
+                                _ => {}
+                            }
+                        }
+                    }
+                    go(&mut built.prog.stmts, &mut ri2, r, k);
+                    misfit.push(format!("C put into an expected-only column (row statement {r}, entry {k})"));
+                }
+            }
+            1 => {
+                if let Some(c) = built.analysis.ccols.iter().next().cloned() {
+                    if let Some(sg) = built.sigs.iter_mut().find(|s| s.name == c) {
+                        sg.kind = Kind::Out;
+                        misfit.push(format!("C column {c} made an output"));
+                    }
+                }
+            }
+            _ => {
+                let b2 = Built { prog: built.prog.clone(), sigs: built.sigs.clone(), cols: built.cols.clone(), analysis: built.analysis.clone() };
+                let mut sigs = built.sigs.clone();
+                for _ in 0..1 + dch.upto(2) {
+                    crate::props::c11::edit_list(&mut dch, &mut sigs, &b2, &mut misfit);
+                }
+                built.sigs = sigs;
+            }
+        }
+        built.analysis = crate::model::analyse(&built.prog);
+    }
+    let is_misfit = !misfit.is_empty() && crate::model::fits(&built.prog, &built.analysis, &built.sigs).is_err();
     let text = built_text(&built);
     let palette = if dch.chance(1, 2) { Palette::Boundary } else { Palette::Small };
     let mut spec = gen_spec(
@@ -118,6 +184,9 @@ pub fn run_chaos(s: &Streams) -> CaseOut {
     };
     render_case(&mut out, &text, &built.sigs, Some(&spec));
     out.put("seed", format!("{seed}"));
+    if !misfit.is_empty() {
+        out.put("misfit-edits", misfit.join("; "));
+    }
     let f = feats(&built);
     feat_classes(&mut out, &f);
     out.class_if(built.sigs.iter().any(|s| s.bits >= 63), "width>=63");
@@ -130,10 +199,11 @@ pub fn run_chaos(s: &Streams) -> CaseOut {
         }
         Err(e) => {
             out.put("load-error", format!("{e:?}"));
-            out.discard("not-accepted-at-load-time");
+            out.discard(if is_misfit { "misfit-refused-at-load-time" } else { "not-accepted-at-load-time" });
             return out;
         }
     };
+    out.class_if(is_misfit, "misfit-accepted-at-load-time");
     let real = run_real(
         &tc,
         &built.sigs,
@@ -212,7 +282,7 @@ impl Property for C10 {
         "C10"
     }
     fn rule(&self) -> &'static str {
-        "profile `chaos`: everything the other profiles avoid - unguarded / and %, random with bounds {-1,0,1,2,...}, signExt, variables bound only on paths that do not execute (while(0), loops with bound <= 0), counter rebinding incl. to i64::MAX, 64-bit boundary arithmetic and shift counts, widths 1..64, wild defaults, shared input/expected columns, X and C anywhere, virtual signals using random, drivers answering Z/X and returning errors at any call, seeds {0,1,MAX,random}; each case enables a random subset of the hazard sources; kept only if the crate accepts it at load time. Run through try_iter, next() to the first error item or the end (+1 call), vars() after each row, and try_iter_static. Oracle: (1) no panic anywhere; (2) in half of the cases a statement that cannot be evaluated whatever the values are - division / remainder by literal zero, signExt, a variable whose only `let` sits in a while(0) body or in a loop with bound 0 - is planted at a random top-level position, where it is executed unconditionally: a run that reaches the end of iteration must then contain an error item. Nothing is asserted about values. The reference interpreter (replaying the crate's own draw log) only classifies which hazards were reached, for the histogram. Non-trivial: a hazardous evaluation was reached or planted, or a width >= 63 is used, or >= 3 rows ran; distinct by source + signals + driver + seed. Thorough adds libFuzzer target run_structured on the same decoder."
+        "profile `chaos`: everything the other profiles avoid - unguarded / and %, random with bounds {-1,0,1,2,...}, signExt, variables bound only on paths that do not execute (while(0), loops with bound <= 0), counter rebinding incl. to i64::MAX, 64-bit boundary arithmetic and shift counts, widths 1..64, wild defaults, shared input/expected columns, X and C anywhere, virtual signals using random, drivers answering Z/X and returning errors at any call, seeds {0,1,MAX,random}; each case enables a random subset of the hazard sources; kept only if the crate accepts it at load time; one case in six is a deliberate misfit between program and signal list (a C entry in an expected-only column, a C column that is an output, edits of the list as in C11) - refused by a correct binding and then discarded, run like any other accepted test if it is accepted all the same. Run through try_iter, next() to the first error item or the end (+1 call), vars() after each row, and try_iter_static. Oracle: (1) no panic anywhere; (2) in half of the cases a statement that cannot be evaluated whatever the values are - division / remainder by literal zero, signExt, a variable whose only `let` sits in a while(0) body or in a loop with bound 0 - is planted at a random top-level position, where it is executed unconditionally: a run that reaches the end of iteration must then contain an error item. Nothing is asserted about values. The reference interpreter (replaying the crate's own draw log) only classifies which hazards were reached, for the histogram. Non-trivial: a hazardous evaluation was reached or planted, or a width >= 63 is used, or >= 3 rows ran; distinct by source + signals + driver + seed. Thorough adds libFuzzer target run_structured on the same decoder."
     }
     fn cases(&self, tier: Tier) -> u64 {
         match tier {
